@@ -23,7 +23,7 @@ RULE = ('enable masks: 3 bias x 3 walk (only where bias) x 3 noise x 9 scale/mis
         'rate and increment types, irregular stamps, Series and DataFrame increment forms; non-trivial = not one of '
         'the four hand-written configurations of the existing tests; distinct = distinct (mask, values)')
 ASSUMPTIONS = ['noise scaling is read off deterministically through a RandomState subclass that records randn']
-REQUIRED_OBS = ['invariant_evaluations', 'roundtrip_checked', 'output_matrix_checked', 'split_updates_checked',
+REQUIRED_OBS = ['integer_typed_time_index', 'history_corrections_checked', 'invariant_evaluations', 'roundtrip_checked', 'output_matrix_checked', 'split_updates_checked',
                 'naming_checked', 'noise_scaling_checked', 'walk_scaling_checked', 'from_model_checked']
 REQUIRED_CLASSES = {'quick': ['mask_random'], 'thorough': ['mask_random', 'mask_exhaustive']}
 EXHAUSTIVE = {'quick': False, 'thorough': False}
@@ -227,6 +227,10 @@ def run_case(case):
         # ---- simulated data, noise-free -------------------------------------------------------------------
         m = int(rng.integers(5, 40))
         t = np.cumsum(rng.uniform(0.005, 0.05, m)) if rng.random() < 0.6 else np.arange(1, m + 1) * 0.01
+        if case['seed'] % 6 == 5:
+            # whole-second stamps kept in an integer-typed index (irregular: intervals of 1, 2 and 3 s)
+            t = np.cumsum(rng.integers(1, 4, m)).astype(np.int64) + int(rng.integers(0, 1000))
+            bump('integer_typed_time_index')
         cols = ['gyro_x', 'gyro_y', 'gyro_z'] if rng.random() < 0.5 else ['accel_x', 'accel_y', 'accel_z']
         clean = pd.DataFrame(rng.standard_normal((m, 3)) * 10 ** rng.uniform(-3, 1), index=pd.Index(t, name='time'), columns=cols)
         T = np.eye(3) + np.where(sm_on, rng.standard_normal((3, 3)) * 10 ** rng.uniform(-9, -1, (3, 3)), 0.0)     # ppm-level and below included
@@ -302,6 +306,36 @@ def run_case(case):
             e1 = np.abs(np.asarray(got.values, float) - np.asarray(got1.values, float)).max()
             if e1 > tol:
                 fail('split_vs_single', f'{form}: model updated in {k} parts corrects differently from a single update ({e1:.3e})')
+        # ---- call histories on ONE model: update / reset / correct / read-back in any order ----------------------------------
+        # reference: a fresh model given the sum of the updates since the last reset in one go (an object that remembers anything
+        # else - a factorisation of an earlier transform, a stale copy of the bias - answers differently)
+        shadow = target.copy()
+        dts1 = pd.Series(dt if sensor_type == 'increment' else np.ones(m), index=noisy.index)
+        for step in range(int(rng.integers(4, 9))):
+            op = str(rng.choice(['update', 'reset', 'correct', 'correct', 'get']))
+            if op == 'update':
+                dx = rng.uniform(-1, 1, n) * np.abs(target)
+                model.update_estimates(dx)
+                shadow = shadow + dx
+            elif op == 'reset':
+                model.reset_estimates()
+                shadow = np.zeros(n)
+            elif op == 'get':
+                est = model.get_estimates()
+                if n and np.abs(est.values - shadow).max() > 64 * np.finfo(float).eps * (2 + step) * (1 + wsum) * (1 + np.abs(target).max()):     # stored as I + sm: absolute rounding
+                    fail('history_estimates', f'after a history of updates / resets get_estimates gives {est.values.tolist()}, the updates since the last reset sum to {shadow.tolist()}')
+            else:
+                fresh = inertial_sensor.EstimationModel(**kw)
+                fresh.update_estimates(shadow)
+                g1 = np.asarray(model.correct_increments(dts1, noisy).values, float)
+                g2 = np.asarray(fresh.correct_increments(dts1, noisy).values, float)
+                bump('history_corrections_checked')
+                if np.abs(g1 - g2).max() > 4 * tol * (1 + step):
+                    fail('history_dependent_correction', f'{sensor_type}: after a history of update / reset calls correct_increments differs by {np.abs(g1 - g2).max():.3e} '
+                         f'from a fresh model holding the same estimates {shadow.tolist()} (tol {4 * tol * (1 + step):.3e})')
+                if not shadow.any() and np.abs(g1 - noisy.values).max() > tol:
+                    fail('history_dependent_correction', f'{sensor_type}: a model whose estimates were reset does not return the increments unchanged '
+                         f'(max change {np.abs(g1 - noisy.values).max():.3e})')
         # ---- output matrix times state = simulated reading error ----------------------------------------------
         for form in ('single', 'stack'):
             bump('output_matrix_checked')
